@@ -81,6 +81,39 @@ CLAIMS = {
               "classification of handlers is a hand-written oracle by handler name (DESIGN.md App. C); sessions are "
               "injected into the cache actor, the login flow is not exercised"),
         technique="Lean 4 theorem (decide +kernel over generated tables) + exhaustive differential correspondence"),
+    "C09": dict(
+        category="proof",
+        text=("Theorems (lean/RNacos/Props/C09.lean) by an invariant preserved by every operation (publish, remove, "
+              "full import, temporary value) over arbitrary keys and histories: md5 matches content (md5_matches); every "
+              "applied configuration is listed exactly once, the size counter equals the listing, whatever is listed is "
+              "stored (listed_exactly_once, listed_is_stored); a read after a publish returns exactly the published "
+              "content/md5 with sticky type/description (get_after_publish, type_desc_after_publish), not-found after a "
+              "remove, other keys untouched (get_after_remove, get_other_key); pages partition the listing with a constant "
+              "total (pages_partition); history is newest-first, one entry per content change, bounded by 100 "
+              "(history_after_change, history_unchanged, history_page_spec). Tie: differential correspondence on the real "
+              "ConfigActor through its actor messages + hook dump of index and cache; the oracle is a naive map from key "
+              "to last applied publish."),
+        note=("trusted: Lean kernel; hand model RNacos/Model/Config.lean; md5 modelled as an injective tag (harness "
+              "checks reported md5 = md5 of content); BTreeMap order = byte-wise string order (ASCII in the "
+              "correspondence); key codec round trip is corresponded, not proved; imported histories <= 100 entries"),
+        technique="Lean 4 theorem (invariant by induction over op sequences) + differential correspondence"),
+    "C10": dict(
+        category="proof",
+        text=("Theorems (lean/RNacos/Props/C10.lean): the title as an invariant - in every state reachable through any "
+              "interleaving of listen / tick / subscribe / unsubscribe / client removal / publish / remove, every "
+              "registered long-poll holds exactly the current md5 of each of its keys and is wired into the per-key index "
+              "that notify consults (no_stale_waiter, noStale_step); a differing md5 is answered in the same step with "
+              "exactly the differing keys (immediate_if_differs); a change answers every long-poll registered under the "
+              "key (change_answers_all); expired long-polls are answered by the next tick (tick_answers_expired); "
+              "publish/remove notify exactly the current subscribers (publish_notifies_subscribers, "
+              "remove_notifies_subscribers). Kept visible as kernel-checked counter-examples: temporary values bypass "
+              "notification (outside the property's alphabet) and remove drops gRPC subscriptions (known finding F13, "
+              "replayed on the real actor every run). Tie: differential correspondence on the real ConfigActor with real "
+              "oneshot receivers and the NotifyConfig hook log."),
+        note=("trusted: Lean kernel; hand model RNacos/Model/Listener.lean with ghost md5s of pending long-polls; the "
+              "wall-clock bound 'no later than its timeout' depends on the actix 500 ms timer (runtime, only sampled); "
+              "delivery of NotifyConfig to the client is not modelled"),
+        technique="Lean 4 theorem (invariant over all interleavings) + differential correspondence"),
 }
 
 PENDING_REASON = ("not yet built in this session (planned, see DESIGN.md §9); no claim is made until its theorems and "
